@@ -354,6 +354,12 @@ func (wf *Workflow) readyToRun(procs map[string]WorkflowProcess) bool {
 			return false
 		}
 	}
+	// A process without out-ports that has taken over as driver has been
+	// removed from the procs, so it has to be checked separately
+	if wf.driver != wf.sink && !wf.driver.Ready() {
+		Error.Println(wf.name + ": Not everything connected. Workflow shutting down.")
+		return false
+	}
 	return true
 }
 
